@@ -97,6 +97,7 @@ func checkC10(c *Ctx) {
 		return
 	}
 	R.Rule("S1", "single shot: each lifecycle callback field of Service is invoked at exactly one site in the methods of *Service, outside any loop, inside the literal passed to doStart.Do; every go statement of Start is inside that literal", 6)
+	R.Rule("S2b", "in the goroutine that runs Run every later phase (cancel, wait for Shutdown, Cleanup, isFinished, isRunning=false, both signals, wg.Done) is a deferred action: a panic in Run goes through the same phases in the same order", 1)
 	R.Rule("S2", "phase order inside the service goroutines, read off the linearised event sequence (statements, then defers in LIFO order)", 3)
 	R.Rule("S4", "every user callback runs with a deferred erc.Recover(ec) registered before it in the same goroutine", 4)
 	R.Rule("S5", "no Store(true) on a lifecycle flag is executed after the go statement of the goroutine that stores false to it (the two stores would be unordered)", 1)
@@ -258,6 +259,28 @@ func checkC10(c *Ctx) {
 			ok, why = checkOrder(evs, "recv:"+shutCh, "close:"+ehCh)
 		}
 		R.Check(ok, "S2", at, pos, "order: "+strings.Join(want, " < "), "phase order broken in the goroutine that runs Run: "+why+"; sequence is "+eventKeys(evs))
+		// S2b: every phase after Run is a deferred action, so the panic path (Run panics, erc.Recover
+		// picks it up) goes through the same phases as the normal path
+		{
+			var missing []string
+			phases := append([]string{}, want[1:]...)
+			if ehCh != "" {
+				phases = append(phases, "close:"+ehCh)
+			}
+			for _, k := range phases {
+				deferred := false
+				for _, e := range evs {
+					if e.Key == k && e.Defer {
+						deferred = true
+					}
+				}
+				if !deferred {
+					missing = append(missing, k)
+				}
+			}
+			R.Check(len(missing) == 0, "S2b", at+"/deferred-phases", pos, "cancel, the wait for Shutdown, Cleanup, the flags and the signals are all deferred",
+				"not deferred in the run goroutine: "+strings.Join(missing, ", ")+" — when Run panics these phases are skipped (Cleanup overlaps a still-running Shutdown, Wait and the ErrorHandler miss Shutdown's error)")
+		}
 		// Run must not be conditional / in a loop; Cleanup guarded only by its nil test
 		for _, e := range evs {
 			if e.Key == "cb:Run" && (e.Loop || e.Cond) {
